@@ -934,6 +934,34 @@ func runC04(cfg *vh.Config) error {
 			res.Count("view")
 		}
 
+		// ---- the whole file through the models of the text path: print -> parse -> decode ->
+		// read in Coq vs the real reflector on the really printed and re-parsed text; and the
+		// descriptor-side hypotheses of C04_text_checked evaluated on the real descriptor
+		if txt.panic == nil && (txt.obj != nil || txt.err != nil) && !strings.HasPrefix(fmt.Sprint(txt.err), "print:") && !strings.HasPrefix(fmt.Sprint(txt.err), "parse printed text:") {
+			dterm, unsupported := dfileDump(c.file)
+			if unsupported != "" {
+				res.Count("file-outside-model")
+			} else {
+				textRefl := `(Err "reflect")`
+				if txt.obj != nil {
+					var terms []string
+					for _, rp := range txt.obj.Properties {
+						ap, ok := propFromProto(env, rp)
+						if !ok || len(rp.ProtoField) != 1 {
+							terms = append(terms, "None")
+							res.Count("text-reflected-unrepresentable")
+							continue
+						}
+						terms = append(terms, fmt.Sprintf("(Some (RP %s [%d]))", ap.Coq(), rp.ProtoField[0]))
+					}
+					textRefl = "(Ok [" + strings.Join(terms, ";") + "])"
+				}
+				cf.Terms = append(cf.Terms, fmt.Sprintf("C04File %s %s %s %s %s", env.Coq(), impDump(c.file), dterm, vh.BytesTerm("Foo"), textRefl))
+				res.Cases = append(res.Cases, vh.CaseRec{Case: caseNo, Stream: "file", Input: map[string]any{"j5s": src, "proto": text}, Impl: map[string]any{"reflected_from_text": protoString(txt.obj), "error": fmt.Sprint(txt.err)}})
+				res.Count("file")
+			}
+		}
+
 		// ---- the enum as a root schema: declared vs compiled vs reflected
 		ed := c.file.Enums().ByName(protoreflect.Name(env.Name))
 		if ed == nil {
